@@ -101,6 +101,9 @@ def verify_lemma(lemma_id: str, repo_root=None, keep_models=False):
     return res
 
 
+GROUP_TIMEOUT_MS = int(os.environ.get("PYVC_GROUP_TIMEOUT_MS", "45000"))
+
+
 def discharge_all(eng, res, keep_models=False, shard=None):
     import z3
     from .engine import Oblig
@@ -122,20 +125,20 @@ def discharge_all(eng, res, keep_models=False, shard=None):
             for ob in members:
                 pre_proved[ob.oid] = "skip"
             continue
-        if len(members) > 1 and time.time() - t_begin < float(os.environ.get("PYVC_FUNC_BUDGET_S", "300")) * 0.7:
+        if len(members) > 1 and time.time() - t_begin < float(os.environ.get("PYVC_FUNC_BUDGET_S", "900")) * 0.7:
             nontriv = [ob for ob in members if not z3.is_true(ob.goal)]
             if nontriv:
                 comb = Oblig(members[0].oid + "+group", members[0].func, "group", members[0].hyps, members[0].schemas,
                              z3.And(*[ob.goal for ob in nontriv]))
                 try:
-                    r = solve.discharge(comb, eng.ct.axioms_for, base, want_model=False)
+                    r = solve.discharge(comb, eng.ct.axioms_for, base, want_model=False, timeout_ms=GROUP_TIMEOUT_MS, quick=True)
                 except Exception:
                     r = None
                 if r is not None and r.status == "proved":
                     for ob in nontriv:
                         pre_proved[ob.oid] = (r.backend + " (grouped)", round(r.seconds / len(nontriv), 4), r.ninst)
     t_start = t_begin
-    budget = float(os.environ.get("PYVC_FUNC_BUDGET_S", "300"))
+    budget = float(os.environ.get("PYVC_FUNC_BUDGET_S", "900"))
     skipped = 0
     for idx, ob in enumerate(eng.obligs):
         if time.time() - t_start > budget and pre_proved.get(ob.oid) not in ("skip",) and ob.oid not in pre_proved:
